@@ -429,13 +429,13 @@ Definition advance (s : sys) : sys :=
 Definition begin_dispatch (s : sys) : sys :=
   advance (set_ring s (r_pc s) (r_polls s) (r_lh s) (length (cq s)) (r_end s) (r_avail s) (r_rest s)).
 
-Definition dispatch (s : sys) : sys * list obs :=
+Definition dispatch_with (u : nat -> op -> cqe -> op * list obs * bool) (s : sys) : sys * list obs :=
   match r_n s, cq s with
   | S n', COp i c :: q' =>
       match o_holder (ops s i) with
       | Some _ => (set_rpc s RDispSpin, [])
       | None =>
-          let '(o', out, bad) := o_update i (ops s i) c in
+          let '(o', out, bad) := u i (ops s i) c in
           let s1 := set_bad (set_op (set_kernel s (inflight s) q') i o') (g_bad s || bad) in
           (advance (set_ring s1 (r_pc s) (r_polls s) (r_lh s) n' (r_end s) (r_avail s) (r_rest s)), out)
       end
@@ -455,8 +455,10 @@ Definition enter (s : sys) : sys * list obs :=
    map OConsumed taken).
 
 (** [fixed = true] is the code after the repair of H15 (every poll ends with
-    [wake_blocked_futures]); [false] is the code before. *)
-Definition rstep_with (fixed : bool) (s : sys) : sys * list obs :=
+    [wake_blocked_futures]); [false] is the code before. [u] is [Shared::update] + what
+    [Completion::process] does with its answer ([o_update]; a variant for the refutation of a
+    seeded change). *)
+Definition rstep_gen (u : nat -> op -> cqe -> op * list obs * bool) (fixed : bool) (s : sys) : sys * list obs :=
   match r_pc s with
   | RIdle => match r_polls s with O => (s, []) | S _ => (set_rpc s RLoadCqT, []) end
   | RLoadCqT => match cq s with [] => (set_rpc s RSetPolling, []) | _ :: _ => (begin_dispatch s, []) end
@@ -489,11 +491,12 @@ Definition rstep_with (fixed : bool) (s : sys) : sys * list obs :=
       (wb_done (set_ring s1 (r_pc s) (r_polls s) (r_lh s) (r_n s) (r_end s) 0 []), map OWakeB woken)
   | RClearPolling => (set_rpc s RLoadCqT2, [])
   | RLoadCqT2 => (begin_dispatch s, [])
-  | RDisp | RDispSpin => dispatch s
+  | RDisp | RDispSpin => dispatch_with u s
   | RStoreHead =>
       if fixed then (set_ring s RWbH (r_polls s) (r_lh s) (r_n s) true (r_avail s) (r_rest s), [])
       else (poll_return s, [])
   end.
+Definition rstep_with (fixed : bool) (s : sys) : sys * list obs := rstep_gen o_update fixed s.
 
 (** * Future threads *)
 
@@ -673,6 +676,48 @@ Definition step_c06a (s : sys) (e : ev) : sys * list obs :=
   match e with
   | T O => rstep_with true s
   | T (S k) => fstep_c06a s k
+  | K i => (kpost s i, [])
+  end.
+
+(** * Variant for the refutation of seeded change C02-a: [Multishot::next] takes the oldest result
+    with [swap_remove(0)] (the LAST queued result takes its place) instead of [remove(0)]. Only the
+    poll of a multishot operation with a non-empty result queue differs. *)
+Definition swap_rest (q' : list Z) : list Z :=
+  match rev q' with [] => [] | x :: r => x :: rev r end.
+
+Definition fstep_c02a (s : sys) (t : nat) : sys * list obs :=
+  let f := thr s t in
+  match f_pc f, f_prog f with
+  | (FStart | FSpin), Poll i w :: _ =>
+      let o := ops s i in
+      match o_holder o, o_kind o, o_st o, o_q o with
+      | None, Multi, (Running | Done), v :: q' =>
+          (set_thr (set_op s i (o_item o v (swap_rest q'))) t (call_done f), [OReady i v])
+      | _, _, _, _ => fstep s t
+      end
+  | _, _ => fstep s t
+  end.
+
+Definition step_c02a (s : sys) (e : ev) : sys * list obs :=
+  match e with
+  | T O => rstep_with true s
+  | T (S k) => fstep_c02a s k
+  | K i => (kpost s i, [])
+  end.
+
+(** * Variant for the refutation of seeded change C06-b: [Shared::update] on a Dropped operation
+    that is not multishot releases the state on ANY completion ("singleshot operations get a single
+    completion"), also on the result completion (F_MORE) of a two-step operation. *)
+Definition o_update_c06b (i : nat) (o : op) (c : cqe) : op * list obs * bool :=
+  match o_st o, o_kind o with
+  | Dropped, (Single | TwoStep) => (o_free (o_seen o c), [OFree i (o_started o)], negb (o_alloc o))
+  | _, _ => o_update i o c
+  end.
+
+Definition step_c06b (s : sys) (e : ev) : sys * list obs :=
+  match e with
+  | T O => rstep_gen o_update_c06b true s
+  | T (S k) => fstep s k
   | K i => (kpost s i, [])
   end.
 
